@@ -30,7 +30,12 @@ ASSUMPTIONS = ["keys handed to the constructor are distinct"]
 
 
 def _batch(rng, keys, absent):
-    kind = rng.choice(["empty", "nokey", "keys", "rep", "mixed", "mixed"])
+    kind = rng.choice(["empty", "nokey", "keys", "rep", "fewrep", "mixed", "mixed"])
+    if kind == "fewrep":       # a small batch (few hits relative to the table) in which a key repeats
+        k = rng.choice(keys)
+        out = [k] * rng.randint(2, 3) + ([rng.choice(absent) for _ in range(rng.randint(0, 3))] if absent else [])
+        rng.shuffle(out)
+        return out
     if kind == "empty":
         return []
     if kind == "nokey":
